@@ -59,12 +59,23 @@ def effects_of(finfo):
                             n.targets) == 1 and n.targets[0] is x else None)
     alias = {}
     for nm, vals in bound.items():
-        if len(vals) == 1 and isinstance(vals[0], ast.Attribute) and \
-                nm not in finfo.params:
-            r = _root(vals[0])
-            if isinstance(r, ast.Name) and (r.id == 'self'
-                                            or r.id in finfo.params):
-                alias[nm] = U(vals[0])
+        if len(vals) != 1 or nm in finfo.params or vals[0] is None:
+            continue
+        cands = [vals[0]]
+        if isinstance(vals[0], ast.IfExp):
+            # may alias either branch
+            cands = [vals[0].body, vals[0].orelse]
+        elif isinstance(vals[0], ast.BoolOp):
+            cands = list(vals[0].values)
+        for v in cands:
+            if isinstance(v, ast.Attribute) or (
+                    isinstance(v, ast.Name) and v.id in finfo.params
+                    and v.id != 'self'):
+                r = _root(v)
+                if isinstance(r, ast.Name) and (r.id == 'self'
+                                                or r.id in finfo.params):
+                    alias[nm] = U(v)
+                    break
 
     def apath(expr):
         t = U(expr)
